@@ -108,7 +108,9 @@ function expectFor (step, line) {
     // a multi-line statement may straddle two sources of the bundle: any line of the statement is acceptable
     const so = step.origMap.sourceOf || {}
     const alts = []
-    for (let l = span[0]; l <= span[1]; l++) alts.push({ path: path.join(path.dirname(step.file), so[String(l)] || step.origMap.source), line: f(l) })
+    // (a source given as an absolute path or as a URL is the original path as it stands)
+    const resolve = (src) => (path.isAbsolute(src) || /^[a-zA-Z][a-zA-Z0-9+.-]*:\/\//.test(src)) ? src : path.join(path.dirname(step.file), src)
+    for (let l = span[0]; l <= span[1]; l++) alts.push({ path: resolve(so[String(l)] || step.origMap.source), line: f(l) })
     return { path: alts[0].path, lo: f(span[0]), hi: f(span[1]), alts }
   }
   return { path: step.file, lo: span[0], hi: span[1] }
@@ -199,7 +201,7 @@ async function run (req) {
             const m = /\((.*):(\d+):(\d+)\)/.exec(e.evalOrigin || '')
             if (m && m[1] === step.file) {
               const want = expectFor(cur.step, +m[2])
-              const innermost = (text) => { const mm = /\(((?:.:)?[/\\][^()]*):(\d+):(\d+)\)/.exec(String(text)); return mm ? { file: mm[1], line: +mm[2] } : null }
+              const innermost = (text) => { const mm = /\(([^()]*):(\d+):(\d+)\)/.exec(String(text)); return mm ? { file: mm[1], line: +mm[2] } : null }
               const got = innermost(g.evalOrigin)
               if (!got || !accept(want, got.file, got.line)) {
                 problems.push({ step: i, kind: 'wrong-location', mode: 'user-eval-origin', site: step.site, frame: k, expected: want, got: g.evalOrigin })
@@ -287,6 +289,18 @@ async function pkgOp (req) {
         const rb = inst.rewrite(req.codeB, req.file)
         out[k].sameSeq = ra.content === req.codeA && rb.content === req.codeB
       }
+    }
+    return out
+  }
+  if (req.op === 'passthrough') {
+    // a modified result: the package hands the rewritten content on as it is (code and embedded map)
+    table.set(req.file + '\0' + req.code, { ok: req.native })
+    const out = {}
+    for (const [k, C] of [['cache', p.Rewriter], ['nocache', p.NonCacheRewriter]]) {
+      const inst = new C(req.config || {})
+      const r = inst.rewrite(req.code, req.file)
+      const again = inst.rewrite(req.code, req.file)
+      out[k] = { same: r.content === req.native.content && again.content === req.native.content, status: r.metrics && r.metrics.status, len: r.content.length, expected: req.native.content.length, tail: String(r.content).slice(-80) }
     }
     return out
   }
